@@ -8,7 +8,9 @@ import Thanos.Model.Bucket
   sorted by MinTime ("blockMetasFromOldest").  External labels are constant and not modelled
   (the harness's oracle compares the labels in the uploaded meta.json).
 
-  Crash budget as in Model/Bucket.lean: after `k` mutating bucket calls every bucket call fails.
+  Faults of the bucket during one Sync (`Fault`): a crash budget as in Model/Bucket.lean (after `k`
+  mutating bucket calls every bucket call fails) and/or a transient failure (exactly the `j`-th
+  bucket call of the Sync — reads and writes counted from 0 — fails, all others pass).
   The local file write cannot fail in the model (local file system faults are out of scope).
 -/
 namespace Thanos.Shipper
@@ -66,8 +68,44 @@ def codeSkipPartial : Bool := true
 def checkerSync (locals : List LBlock) (s : Bucket) : Option (List (Int × Int)) :=
   checkerSyncWith codeSkipPartial locals s
 
+/-- the faults of the bucket during one Sync -/
+structure Fault where
+  budget : Option Nat      -- crash budget: mutating calls that still reach the bucket (none = no crash)
+  trans : Option Nat       -- transient failure: bucket calls that still pass before the one that fails
+  deriving DecidableEq, Repr
+
+def Fault.none : Fault := ⟨Option.none, Option.none⟩
+
+/-- does the next bucket call fail? -/
+def Fault.hit (f : Fault) : Bool := crashed f.budget || f.trans == some 0
+/-- after a call that failed: a transient failure is used up, a crash stays -/
+def Fault.afterHit (f : Fault) : Fault := ⟨f.budget, if crashed f.budget then f.trans else Option.none⟩
+/-- after a read that passed -/
+def Fault.pass (f : Fault) : Fault := ⟨f.budget, f.trans.map (· - 1)⟩
+/-- after a mutating call that passed -/
+def Fault.passMut (f : Fault) : Fault := ⟨dec f.budget, f.trans.map (· - 1)⟩
+/-- `n` reads in a row (the lazy sync of the overlap checker): `none` if one of them fails -/
+def Fault.passReads (f : Fault) (n : Nat) : Option Fault :=
+  if crashed f.budget then Option.none else
+  match f.trans with
+  | Option.none => some f
+  | some t => if t < n then Option.none else some ⟨f.budget, some (t - n)⟩
+
+/-- the interpreter of call scripts under a `Fault`; returns the fault state afterwards -/
+def execF (f : Fault) : List Call → Bucket → Res × Fault
+  | [], s => (⟨true, [], s⟩, f)
+  | .rd :: cs, s => if f.hit then (⟨false, [], s⟩, f.afterHit) else execF f.pass cs s
+  | .mu op :: cs, s =>
+    if f.hit then (⟨false, [], s⟩, f.afterHit) else
+    let r := execF f.passMut cs (apply s op)
+    (⟨r.1.ok, op :: r.1.trace, r.1.bkt⟩, r.2)
+  | .muIgn op :: cs, s =>
+    if f.hit then execF f.afterHit cs s else
+    let r := execF f.passMut cs (apply s op)
+    (⟨r.1.ok, op :: r.1.trace, r.1.bkt⟩, r.2)
+
 structure Acc where
-  budget : Option Nat
+  fault : Fault
   bkt : Bucket
   uploaded : List Nat                        -- meta.Uploaded, rebuilt
   checker : Option (List (Int × Int))        -- lazyOverlapChecker.metas once synced
@@ -80,27 +118,46 @@ inductive Step where
   | abort (a : Acc)          -- `return uploaded, err` before the meta file is written
   deriving Repr
 
-def spend (b : Option Nat) (n : Nat) : Option Nat := b.map (· - n)
-
 /-- `checker.IsOverlapping` for a compacted block when out-of-order uploads are not allowed:
-    `none` = the check fails (overlap, or the lazy sync of the checker failed),
-    `some c` = passed, `c` is the checker's state afterwards -/
-def overlapCheck (cfg : Cfg) (locals : List LBlock) (b : LBlock) (a : Acc) : Option (Option (List (Int × Int))) :=
+    `none` = the check fails (overlap, or the lazy sync of the checker failed — also because one
+    of its reads failed), `some (c, f)` = passed, `c` is the checker's state and `f` the fault state
+    afterwards.  The lazy sync issues one listing and one Get per block directory. -/
+def overlapCheck (cfg : Cfg) (locals : List LBlock) (b : LBlock) (a : Acc) :
+    Option (Option (List (Int × Int)) × Fault) :=
   if b.level > 1 ∧ cfg.allowOOO = false then
     match a.checker with
-    | some ms => if overlapping ((b.minT, b.maxT) :: ms) then none else some (some ms)
+    | some ms => if overlapping ((b.minT, b.maxT) :: ms) then none else some (some ms, a.fault)
     | none =>
-      match checkerSync locals a.bkt with
+      match a.fault.passReads (1 + (dirsOf a.bkt).length) with
       | none => none
-      | some ms => if overlapping ((b.minT, b.maxT) :: ms) then none else some (some ms)
-  else some a.checker
+      | some f' =>
+        match checkerSync locals a.bkt with
+        | none => none
+        | some ms => if overlapping ((b.minT, b.maxT) :: ms) then none else some (some ms, f')
+  else some (a.checker, a.fault)
+
+/-- the chunk phase of `block.upload` (`objstore.UploadDir`): every segment file is attempted —
+    a failed one does not stop the others (the error surfaces when the directory is done) -/
+def chunkCalls (n : Nat) (b : Block) : List Call :=
+  b.chunks.map fun p => .muIgn (.put (n, p.1) (.data p.2))
+
+/-- the rest of `block.upload`: index, then meta.json; the first failure aborts -/
+def tailCalls (n : Nat) (b : Block) : List Call :=
+  [.mu (.put (n, indexName) (.data b.index)), .mu (.put (n, metaName) b.metaObj)]
+
+/-- `block.Upload` under a `Fault`: (ok, calls that reached the bucket, bucket, fault afterwards) -/
+def uploadF (f : Fault) (n : Nat) (b : Block) (s : Bucket) : Res × Fault :=
+  let r1 := execF f (chunkCalls n b) s
+  if r1.1.trace.length < b.chunks.length then (⟨false, r1.1.trace, r1.1.bkt⟩, r1.2)
+  else
+    let r2 := execF r1.2 (tailCalls n b) r1.1.bkt
+    (⟨r2.1.ok, r1.1.trace ++ r2.1.trace, r2.1.bkt⟩, r2.2)
 
 /-- `s.upload` (= `block.Upload` of the hard-linked copy) and the bookkeeping after it -/
-def doUpload (cfg : Cfg) (b : LBlock) (a : Acc) (checker' : Option (List (Int × Int))) : Step :=
-  let r := exec a.budget (uploadScript codeUploadOrder b.id b.files) a.bkt
-  let a' : Acc := { a with budget := spend a.budget r.trace.length, bkt := r.bkt,
-                           trace := a.trace ++ r.trace, checker := checker' }
-  if r.ok then .cont { a' with uploaded := a'.uploaded ++ [b.id] }
+def doUpload (cfg : Cfg) (b : LBlock) (a : Acc) (checker' : Option (List (Int × Int))) (f : Fault) : Step :=
+  let r := uploadF f b.id b.files a.bkt
+  let a' : Acc := { a with fault := r.2, bkt := r.1.bkt, trace := a.trace ++ r.1.trace, checker := checker' }
+  if r.1.ok then .cont { a' with uploaded := a'.uploaded ++ [b.id] }
   else if cfg.allowOOO = false then .abort a'
   else .cont { a' with uploadErrs := a'.uploadErrs + 1 }
 
@@ -109,12 +166,14 @@ def stepBlock (cfg : Cfg) (locals : List LBlock) (hasUploaded : List Nat) (b : L
   if hasUploaded.contains b.id then .cont { a with uploaded := a.uploaded ++ [b.id] }
   else if b.samples = 0 then .cont a
   else if b.level > 1 ∧ cfg.uploadCompacted = false then .cont a
-  else if crashed a.budget then .abort a                                  -- Exists fails
-  else if (get a.bkt (b.id, metaName)).isSome then .cont { a with uploaded := a.uploaded ++ [b.id] }
+  else if a.fault.hit then .abort { a with fault := a.fault.afterHit }      -- Exists fails
   else
-    match overlapCheck cfg locals b a with
-    | none => .abort a
-    | some checker' => doUpload cfg b a checker'
+    let a1 : Acc := { a with fault := a.fault.pass }
+    if (get a.bkt (b.id, metaName)).isSome then .cont { a1 with uploaded := a.uploaded ++ [b.id] }
+    else
+      match overlapCheck cfg locals b a1 with
+      | none => .abort a1
+      | some (checker', f) => doUpload cfg b a1 checker' f
 
 def Step.acc : Step → Acc
   | .cont a => a
@@ -139,9 +198,9 @@ structure SyncRes where
   deriving Repr
 
 /-- `Shipper.Sync` -/
-def sync (cfg : Cfg) (locals : List LBlock) (budget : Option Nat) (st : State) : SyncRes :=
+def sync (cfg : Cfg) (locals : List LBlock) (fault : Fault) (st : State) : SyncRes :=
   let hasUploaded := st.file.getD []
-  match loop cfg locals hasUploaded locals ⟨budget, st.bkt, [], none, 0, []⟩ with
+  match loop cfg locals hasUploaded locals ⟨fault, st.bkt, [], none, 0, []⟩ with
   | .abort a => ⟨false, a.trace, ⟨a.bkt, st.file⟩⟩
   | .cont a => ⟨a.uploadErrs = 0, a.trace, ⟨a.bkt, some a.uploaded⟩⟩
 
